@@ -58,35 +58,62 @@ def write_replay(prop, tier, violation):
     return path
 
 
+def fresh_unit(mod, unit):
+    """Run one unit in a fresh forked process (as the exploration does) and return its result record."""
+    from .engine import _run_forked
+
+    return _run_forked([(mod.__name__, 0, unit, 900)], 1)[0]
+
+
+def replay_in_child(mod, case):
+    """Signatures produced by mod.replay(case), computed in a forked child of this (still pristine) process."""
+    import multiprocessing as mp
+
+    ctx = mp.get_context("fork")
+    parent_end, child_end = ctx.Pipe(duplex=False)
+
+    def work(conn):
+        try:
+            out = [s for s, _ in mod.replay(case)]
+        except Exception as e:  # noqa
+            out = [f"replay-raised/{type(e).__name__}"]
+        conn.send(out)
+        conn.close()
+
+    p = ctx.Process(target=work, args=(child_end,), daemon=True)
+    p.start()
+    child_end.close()
+    try:
+        out = parent_end.recv() if parent_end.poll(900) else []
+    except (EOFError, OSError):
+        out = []
+    p.join(5)
+    if p.is_alive():
+        p.kill()
+    return out
+
+
 def confirm(mod, violation):
     """Re-execute the single case twice on fresh objects. Returns 'case', 'unit' or None."""
     sig = violation["signature"]
     if sig.startswith("hang/"):
         return "unit"
     if sig.startswith("crash/"):
-        from .engine import run_one
-
         unit = violation.get("unit")
-        ra = run_one(mod.__name__, 0, unit, 900)
-        rb = run_one(mod.__name__, 0, unit, 900)
+        ra, rb = fresh_unit(mod, unit), fresh_unit(mod, unit)
         ok = all(any(v["signature"] == sig for v in r["violations"]) for r in (ra, rb))
         return "unit" if ok else None
-    try:
-        a = [s for s, _ in mod.replay(violation["case"])]
-        b = [s for s, _ in mod.replay(violation["case"])]
-    except Exception as e:  # noqa
-        a = b = []
-        print(f"note: isolated replay raised {type(e).__name__}: {e}")
+    # (each replay in its own forked child, so nothing a replay leaves behind in this process can reach a later one)
+    a = replay_in_child(mod, violation["case"])
+    b = replay_in_child(mod, violation["case"])
     if sig in a and sig in b:
         return "case"
-    # history-dependent failure (state leaking between cases): fall back to re-running the whole unit twice
-    from .engine import run_one
-
+    # history-dependent failure (state leaking between cases): fall back to re-running the whole unit twice, each time in a
+    # fresh process - exactly the conditions under which the exploration ran it
     unit = violation.get("unit")
     if unit is None:
         return None
-    ra = run_one(mod.__name__, 0, unit, 900)
-    rb = run_one(mod.__name__, 0, unit, 900)
+    ra, rb = fresh_unit(mod, unit), fresh_unit(mod, unit)
     if any(v["signature"] == sig for v in ra["violations"]) and any(v["signature"] == sig for v in rb["violations"]):
         return "unit"
     return None
